@@ -1157,6 +1157,8 @@ impl<'a> GeneratorState<'a> {
                     .syntax_error("Unsupported cycle sleep value", pos))
             }
         };
+        // DEC and PLA change N and Z: what was known about the flags is lost
+        self.flags = FlagsState::Unknown;
         Ok(())
     }
 
